@@ -245,34 +245,52 @@ class Counter(dict):
         self[k] = self.get(k, 0) + n
 
 def rw_update_closure(body, cnt):
-    """R1/R2: X.update(S, |mut v| -> StdResult<_> { B })?;  ==>  load / B / save"""
+    """R1/R2: X.update([S,] [K,] |v| -> StdResult<_> { B })?;  ==>  load|may_load / B / save
+    Item::update(S, f)   = load(S)?, f, save(S)          (cw-storage-plus)
+    Map::update(S, K, f) = may_load(S, K)?, f, save(S, K) (cw-storage-plus)
+    Bucket::update(K, f) = may_load(K)?, f, save(K)       (cosmwasm-storage)"""
     while True:
         msk = mask(body)
-        m = re.search(r'\b([A-Z_][A-Z0-9_]*)\s*\.\s*update\s*\(', msk)
+        m = re.search(r'\b([A-Za-z_][A-Za-z0-9_]*)\s*\.\s*update\s*\(', msk)
         if not m: return body
         o = m.end() - 1
         c = match_close(msk, o)
         inner = body[o + 1:c]
         imsk = msk[o + 1:c]
-        cm = re.match(r'\s*([^|]+?)\s*,\s*\|\s*(mut\s+)?(\w+)(\s*:\s*[^|]+)?\|\s*->\s*([^{]+?)\s*\{', imsk)
+        cm = re.match(r'\s*(.*?)\s*,\s*\|\s*(mut\s+)?(\w+)(\s*:\s*[^|]+)?\|\s*->\s*([^{]+?)\s*\{', imsk, re.S)
         if not cm: raise ExtractError('R1: unsupported update() shape: ' + inner[:80])
-        storage = inner[cm.start(1):cm.end(1)]
-        var = cm.group(3)
+        args = inner[cm.start(1):cm.end(1)]
+        var = cm.group(3); mut = 'mut ' if cm.group(2) else ''
         bo = o + 1 + cm.end() - 1
         bc = match_close(msk, bo)
         block = body[bo:bc + 1]
-        tail = msk[c + 1:c + 3]
-        if not re.match(r'\s*\?', msk[c + 1:]):
+        if not re.match(r'\s*\)\s*\?', msk[bc + 1:]):
             raise ExtractError('R1: update() not followed by ?')
         q = c + 1 + msk[c + 1:].index('?')
         item = m.group(1)
+        nargs = len([a for a in split_top(args) if a.strip()])
+        upper = item.upper() == item
+        if upper and nargs == 1:
+            load = '%s.load(%s)?' % (item, args); rid = 'R1'
+        else:
+            load = '%s.may_load(%s)?' % (item, args); rid = 'R2'
         # a `return Err(e)` inside the closure leaves the closure; with the trailing `?` it
         # leaves the function with the same error: identical once inlined.
-        repl = ('{ let mut %s = %s.load(%s)?; let __upd = %s?; %s.save(%s, &__upd)?; }'
-                % (var, item, storage, block, item, storage))
-        # keep a trailing ';' if any
+        repl = ('{ let %s%s = %s; let __upd = %s?; %s.save(%s, &__upd)?; }'
+                % (mut, var, load, block, item, args))
         body = body[:m.start()] + repl + body[q + 1:]
-        cnt.hit('R1')
+        cnt.hit(rid)
+
+def split_top(s):
+    res, depth, cur = [], 0, ''
+    for ch in s:
+        if ch in '([{': depth += 1
+        elif ch in ')]}': depth -= 1
+        if ch == ',' and depth == 0:
+            res.append(cur); cur = ''
+        else: cur += ch
+    res.append(cur)
+    return res
 
 def rw_opassign(body, cnt):
     """R3: a += b;  ==> a = a + b;   (also -=)"""
@@ -410,6 +428,27 @@ def loops_in(body):
         res.append((m.start(), i))
     return res
 
+ITEM_TMPL = '''
+// typed accessor standing for `pub const @C@: Item<@T@>` (A5); storage field `@F@`
+pub struct Item_@C@;
+impl Item_@C@ {
+    #[verifier::external_body]
+    pub fn load(&self, s: &Storage) -> (r: StdResult<@T@>)
+        ensures s.@F@ is Some ==> r is Ok && r->Ok_0 == s.@F@->Some_0,
+                s.@F@ is None ==> r is Err
+    { unimplemented!() }
+    #[verifier::external_body]
+    pub fn may_load(&self, s: &Storage) -> (r: StdResult<Option<@T@>>)
+        ensures r is Ok, r->Ok_0 == s.@F@
+    { unimplemented!() }
+    #[verifier::external_body]
+    pub fn save(&self, s: &mut Storage, v: &@T@) -> (r: StdResult<()>)
+        ensures r is Ok, *final(s) == (Storage { @F@: Some(*v), ..*old(s) })
+    { unimplemented!() }
+}
+pub const @C@: Item_@C@ = Item_@C@;
+'''
+
 class Clause:
     def __init__(self, name, props, kind, fn):
         self.name, self.props, self.kind, self.fn = name, props, kind, fn
@@ -459,8 +498,20 @@ class Unit:
         # extend each clause to the line before the next clause / end of block
         return
 
+    def expand(self, path, depth=0):
+        out = []
+        for l in open(path).read().split('\n'):
+            st = l.strip()
+            if st.startswith('//@include '):
+                inc = os.path.join(self.verif, st.split()[1])
+                if depth > 8: raise ExtractError('include depth')
+                out += self.expand(inc, depth + 1)
+            else:
+                out.append(l)
+        return out
+
     def build(self, template_path):
-        lines = open(template_path).read().split('\n')
+        lines = self.expand(template_path)
         i = 0
         while i < len(lines):
             l = lines[i]
@@ -479,8 +530,8 @@ class Unit:
             d = s[3:].strip().split()
             if not d:
                 i += 1; continue
-            if d[0] == 'include':
-                self.emit(open(os.path.join(self.verif, d[1])).read())
+            if d[0] == 'item':
+                self.emit(ITEM_TMPL.replace('@C@', d[1]).replace('@T@', d[2]).replace('@F@', d[3]))
                 i += 1
             elif d[0] in ('struct', 'enum'):
                 src = self.read_repo(d[1])
@@ -574,7 +625,9 @@ class Unit:
         for fnrw in GENERIC:
             body = fnrw(body, cnt)
         for rid, pat, rep, count in spec['rewrites']:
+            sig, n0 = re.subn(pat, rep, sig, flags=re.S)
             body2, n = re.subn(pat, rep, body, flags=re.S)
+            n += n0
             if n == 0 or (count != '+' and n != int(count)):
                 raise ExtractError(f'{name}: rewrite {rid} /{pat}/ matched {n} times (expected {count})')
             cnt.hit(rid, n)
